@@ -26,7 +26,7 @@ func (c15) ID() string { return "C15" }
 func (c15) Meta(tier string) engine.Meta {
 	return engine.Meta{
 		Level: "model_checking",
-		Rule: "all Go types of depth <= 3 built by reflection from {int,int8,uint16,float32,float64,string,bool,time.Time, interface, chan, func, complex, uintptr} with pointer / slice / array / map (string, int, float64, bool, time and struct keys) / struct constructors (fields untagged, renamed, `,maybe`, duplicate names; pointer, slice, map, interface and nested-struct fields), × all values over a 2–3 element domain per leaf with nil / non-nil pointers, nil / empty / one / two-element containers, nil and non-nil interfaces holding 4 dynamic shapes (a case is one Go type; its run enumerates the values and all ordered pairs of stable values), under map-iteration seeds 1 and 5. Oracle (reference conversion on the descriptions, no reflection): ValOf succeeds iff the description is convertible; the value is well formed (own reader), its type equals TypeOf(v) and the expected type, contents equal the original; ValEnvOf / TypeEnvOf agree field by field; for values without interface parts whose nil-able parts are non-nil or declared optional the type is the same for every value of the Go type, and an expression compiled against one such value accepts every other; unsupported or inconsistent data is an error, never a panic. non-trivial = types with at least one constructor",
+		Rule: "all Go types of depth <= 3 built by reflection from {int,int8,uint16,float32,float64,string,bool,time.Time, interface, chan, func, complex, uintptr} with pointer / slice / array / map (string, int, float64, bool, time and struct keys) / struct constructors (fields untagged, renamed, `,maybe`, duplicate names; pointer, slice, map, interface and nested-struct fields), × all values over a 2–3 element domain per leaf with nil / non-nil pointers, nil / empty / one / two-element containers, nil and non-nil interfaces holding 4 dynamic shapes (a case is one Go type; its run enumerates the values and all ordered pairs of stable values), under map-iteration seeds 1 and 5. Oracle (reference conversion on the descriptions, no reflection): ValOf succeeds iff the description is convertible; the value is well formed (own reader), its type equals TypeOf(v) and the expected type, contents equal the original; ValEnvOf / TypeEnvOf agree field by field; for values without interface parts whose nil-able parts are non-nil or declared optional the type is the same for every value of the Go type, and an expression compiled against one such value accepts every other; unsupported or inconsistent data is an error, never a panic; depth-limit family: a number below n in {1,50,99,100,101,102,150,400} levels of slices / arrays / maps / structs / pointers to structs / a rotation of them converts iff n <= 100. non-trivial = types with at least one constructor",
 		Bound: "type depth 3 (constructor alphabet narrowed at depth 3); value domains capped at 24 per nested position",
 		Assumptions: []string{"struct field names are the tag name or the Go field name; pointer map keys are outside the alphabet"},
 	}
@@ -38,7 +38,7 @@ func c15Shapes(tier string) []*shape {
 	all := []*shape{L("int8"), L("uint16"), L("float32"), L("iface"), L("chan"), L("func"), L("complex"), L("uintptr")}
 	all = append(all, leaves...)
 	st := func(fs ...shapeField) *shape { return &shape{K: "struct", Fields: fs} }
-	f := func(tag string, maybe bool, s *shape) shapeField { return shapeField{tag, maybe, s} }
+	f := func(tag string, maybe bool, s *shape) shapeField { return shapeField{Tag: tag, Maybe: maybe, S: s} }
 	var d1 []*shape
 	for _, l := range append(leaves, L("iface"), L("chan"), L("int8")) {
 		d1 = append(d1, &shape{K: "ptr", Elem: l}, &shape{K: "slice", Elem: l}, &shape{K: "array", Elem: l},
@@ -51,6 +51,9 @@ func c15Shapes(tier string) []*shape {
 	for _, k := range []string{"int", "float64", "bool", "time"} {
 		d1 = append(d1, &shape{K: "map", Key: L(k), Elem: L("string")}, &shape{K: "map", Key: L(k), Elem: L("iface")})
 	}
+	pad := func(tag string, maybe bool, s *shape) shapeField { return shapeField{Tag: tag, Maybe: maybe, S: s, Pad: true} }
+	d1 = append(d1, st(pad("a", true, &shape{K: "ptr", Elem: L("int")})), st(pad("a", false, L("int"))), st(pad("a", true, L("string")), f("b", false, L("int"))),
+		st(pad("a", true, &shape{K: "slice", Elem: L("int")})))
 	d1 = append(d1, st(), st(f("a", false, L("int")), f("a", false, L("string"))), st(f("x", false, L("int")), f("y", true, &shape{K: "ptr", Elem: L("string")})),
 		st(f("x", false, L("int")), f("", false, L("func"))), &shape{K: "map", Key: st(f("k", false, L("int"))), Elem: L("int")})
 	out := append(all, d1...)
@@ -80,7 +83,77 @@ func c15Shapes(tier string) []*shape {
 	return append(out, d3...)
 }
 
+// depth-limit family: a number at nesting level n below chains of one constructor (or a rotation
+// of all of them); conversion succeeds iff n <= 100 (conv's documented nesting limit).
+var c15DepthKinds = []string{"slice", "struct", "map", "ptrstruct", "array", "mixed"}
+
+type c15Node struct{ V interface{} }
+
+func c15DepthValue(kind string, n int) (interface{}, *ref.V) {
+	var g interface{} = 7
+	r := ref.NumV(7)
+	for i := 0; i < n; i++ {
+		k := kind
+		if kind == "mixed" {
+			k = c15DepthKinds[i%5]
+		}
+		switch k {
+		case "slice":
+			g = []interface{}{g}
+			r = ref.ListV(r.T, r)
+		case "array":
+			g = [1]interface{}{g}
+			r = ref.ListV(r.T, r)
+		case "map":
+			g = map[string]interface{}{"k": g}
+			r = ref.MapV(gen.Str, r.T, ref.StrV("k"), r)
+		case "struct":
+			g = c15Node{g}
+			r = ref.ObjV([]string{"V"}, r)
+		case "ptrstruct":
+			g = &c15Node{g}
+			r = ref.ObjV([]string{"V"}, r)
+		}
+	}
+	return g, r
+}
+
+func c15Depth(c *engine.Case) *engine.Result {
+	res := &engine.Result{NonTrivial: true}
+	kind := c.Args[1]
+	n, _ := strconv.Atoi(c.Args[2])
+	g, want := c15DepthValue(kind, n)
+	got, err, pan := tryValOf(g)
+	res.Execs++
+	res.States++
+	switch {
+	case pan != "":
+		res.Violations = append(res.Violations, vf("conv-panic", "ValOf of a number below %d levels of %s panicked: %s", n, kind, stable_(pan)))
+	case n > 100 && err == nil:
+		res.Violations = append(res.Violations, vf("depth-limit-not-reported", "ValOf accepted a number below %d levels of %s; nesting beyond 100 levels must be an error", n, kind))
+	case n <= 100 && err != nil:
+		res.Violations = append(res.Violations, vf("conv-rejects-valid", "ValOf rejected a number below %d levels of %s (%v); the limit is 100", n, kind, err))
+	case err == nil:
+		rv, werr := real.FromVal(got)
+		if werr != nil || !ref.Same(rv, want) {
+			res.Violations = append(res.Violations, vf("conv-wrong-contents", "ValOf of a number below %d levels of %s is not the original (%v)", n, kind, werr))
+		}
+	}
+	if _, _, tpan := tryTypeOf(g); tpan != "" {
+		res.Violations = append(res.Violations, vf("conv-panic", "TypeOf of a number below %d levels of %s panicked: %s", n, kind, stable_(tpan)))
+	}
+	res.Outcome = fmt.Sprintf("depth err=%v", err != nil)
+	return res
+}
+
 func (c15) Generate(tier string, yield func(*engine.Case) bool) {
+	for _, k := range c15DepthKinds {
+		for _, n := range []int{1, 50, 99, 100, 101, 102, 150, 400} {
+			if !yield(&engine.Case{Family: "depth-limit", Key: fmt.Sprintf("depth %s %d", k, n), Args: []string{"depth", k, strconv.Itoa(n)}}) {
+				return
+			}
+		}
+	}
 	for i, s := range c15Shapes(tier) {
 		if !yield(&engine.Case{Family: "gotype-" + s.K, Key: s.String(), Args: []string{strconv.Itoa(i)}}) {
 			return
@@ -109,6 +182,9 @@ func tryTypeOf(v interface{}) (out *types.Type, err error, pan string) {
 }
 
 func (c15) Run(c *engine.Case) *engine.Result {
+	if c.Args[0] == "depth" {
+		return c15Depth(c)
+	}
 	idx, _ := strconv.Atoi(c.Args[0])
 	s := c15Shapes(engine.CurrentTier)[idx]
 	res := &engine.Result{NonTrivial: !isLeaf(s.K)}
